@@ -146,6 +146,10 @@ func reportedLoad(sp *ShardSpec) (head, proc int64) {
 		proc += h.Total
 	}
 	head += sp.HeadExtra
+	if !sp.HashEqual {
+		// the shard answered twice (before and after the configuration push): its load is what it said last
+		head += sp.Head2
+	}
 	return
 }
 
@@ -202,6 +206,9 @@ func JudgeC04(sc *Scenario, tr *Transcript) *Verdict {
 			}
 			for k := range kinds {
 				vd.class("placement-" + k)
+			}
+			if sp := &v.Spec.Shards[s]; !sp.HashEqual && sp.Head2 != 0 {
+				vd.class("placement-on-shard-that-reported-twice")
 			}
 			kind := "first"
 			if kinds["move"] {
